@@ -217,6 +217,64 @@ def run(ctx):  # noqa: C901
     rets, _ = return_terms(m, sg, inline=False)
     oksg = any(t[0] == "/" and t[2] == ("+", tuple(sorted([("**", ("n", "dim"), ("c", 2)), ("neg", ("n", "dim"))], key=repr))) and "swap_operator" in repr(t[1]) for _, _, t in rets)
     ctx.ob("R-PRED", sg, "singlet == (I - S) / (d^2 - d)", oksg, "normalisation d^2 - d" if oksg else "formula changed")
+    # horodecki: each branch returns n(a) * literal matrix with Tr == 1, as a polynomial identity in a (normaliser 1/(8a+1) for 3x3,
+    # 1/(7a+1) for 2x4: the sum of the literal's diagonal must equal the denominator of the prefactor)
+    from ..symmat import Eval as _SymEval, Unsupported as _Unsup
+    from ..rules import value_at as _value_at
+    ho = S("horodecki")
+    Nh = Normalizer(m, ho, inline=False)
+    n_lit = 0
+    for n in walk_no_nested(ho.node):
+        if isinstance(n, ast.Assign) and len(n.targets) == 1 and isinstance(n.targets[0], ast.Name) and isinstance(n.value, ast.BinOp) and isinstance(n.value.op, ast.Mult):
+            pre, lit = n.value.left, n.value.right
+            if not (isinstance(lit, ast.Call) and getattr(lit.func, "attr", "") == "array" and lit.args and isinstance(lit.args[0], ast.List) and len(lit.args[0].elts) >= 4):
+                continue
+            rows = lit.args[0].elts
+            if not all(isinstance(r, ast.List) and len(r.elts) == len(rows) for r in rows):
+                continue
+            n_lit += 1
+            env = {}
+            def _val(nm):
+                if nm not in env:
+                    env[nm] = _value_at(m, ho, nm, n, Nh)
+                return env[nm]
+            names = {x.id for x in ast.walk(n.value) if isinstance(x, ast.Name) and ho.param(x.id) is None and x.id not in ("np",)}
+            ev = _SymEval({"a_param"}, "__none__", 2, env={nm: _val(nm) for nm in names if _val(nm) is not None})
+            try:
+                diag = ev.scalar(("c", 0))
+                for i, r in enumerate(rows):
+                    diag = diag + ev.scalar(Nh(r.elts[i]))
+                pt = Nh(pre)
+                if pt[0] == "n" and _val(pt[1]) is not None:
+                    pt = _val(pt[1])
+                ok = pt[0] == "/" and ev.scalar(pt[1]) * diag == ev.scalar(pt[2]) * ev.scalar(("c", 1)) and (ev.scalar(pt[1]) == ev.scalar(("c", 1)))
+                ctx.ob("R-PRED", ho, f"{len(rows)}x{len(rows)} Horodecki matrix has unit trace (prefactor == 1 / sum of the diagonal)", bool(ok),
+                       f"diagonal sums to {diag!r}, prefactor {show(pt)}" if ok else
+                       f"the diagonal of the literal sums to {diag!r} but the prefactor is {show(pt)}: the state is not normalised (trace != 1 for a > 0)", n)
+            except _Unsup as exc:
+                ctx.ob("R-PRED", ho, f"{len(rows)}x{len(rows)} Horodecki matrix has unit trace (prefactor == 1 / sum of the diagonal)", None, f"not evaluable: {exc}", n, required=False)
+    if n_lit < 2:
+        ctx.ob("R-PRED", ho, "Horodecki matrices are n(a) * literal", None, f"{n_lit} literal construction(s) found", required=False)
+    # cyclic shift: k applications of the one-step shift, for EVERY k (k >= n wraps around)
+    cy = M("cyclic_permutation_matrix")
+    Ncy = Normalizer(m, cy, inline=True)
+    retsc, _ = return_terms(m, cy, inline=True)
+    okcy = None
+    for _rn, _fa, t in retsc:
+        if t[0] == "call" and t[1] == "numpy.linalg.matrix_power" and len(t[2]) == 2 and t[2][1] == ("n", "k"):
+            okcy = True
+        elif t[0] == "call" and t[1] == "numpy.roll":
+            okcy = True
+    if okcy is None:
+        # direct construction: every use of k as an index / slice bound must be reduced modulo n first
+        raw_k = [x for x in walk_no_nested(cy.node) if isinstance(x, ast.Subscript) and any(isinstance(y, ast.Name) and y.id == "k" for y in ast.walk(x.slice))]
+        reduced = any(isinstance(x, ast.BinOp) and isinstance(x.op, ast.Mod) and any(isinstance(y, ast.Name) and y.id == "k" for y in ast.walk(x.left)) for x in walk_no_nested(cy.node)) or \
+            any(isinstance(x, ast.AugAssign) and isinstance(x.op, ast.Mod) and isinstance(x.target, ast.Name) and x.target.id == "k" for x in walk_no_nested(cy.node))
+        if raw_k and not reduced:
+            okcy = False
+    ctx.ob("R-PRED", cy, "k-fold cyclic shift == k-th power of the one-step shift (wraps for k >= n)", okcy,
+           "matrix_power(P, k)" if okcy else "`k` is used as a slice bound without reduction modulo n: for k > n the filled diagonals fall outside the matrix and the result is not a permutation matrix"
+           if okcy is False else "construction not recognised", required=okcy is not None)
     # standard matrices
     gp = M("gen_pauli")
     rets, Ngp = return_terms(m, gp, inline=True)
